@@ -1271,8 +1271,16 @@ void BSSubIndexTriShape::notifyVerticesDelete(const std::vector<uint16_t>& vertI
 		// Align sub segments
 		size_t j = 0;
 		for (auto& subSegment : segment.subSegments) {
-			if (j == 0)
+			if (j == 0) {
+				// Triangles that belong to the segment itself (not to a sub segment) come first
+				uint32_t subPrimitives = 0;
+				for (auto& ss : segment.subSegments)
+					subPrimitives += ss.numPrimitives;
+
 				subSegment.startIndex = segment.startIndex;
+				if (segment.numPrimitives > subPrimitives)
+					subSegment.startIndex += (segment.numPrimitives - subPrimitives) * 3;
+			}
 
 			if (j + 1 >= segment.numSubSegments)
 				continue;
